@@ -143,6 +143,15 @@ fn hostile_history(
         if let Some(p) = &o.panic {
             return Some(format!("in-limits call {} of an in-sync history panicked: {p}", op.show()));
         }
+        // every public query belongs to "every call sequence": len() and is_empty() too (reach showed is_empty()
+        // unexecuted by this workload; a query that walks the store can free or read what it must not)
+        {
+            let g = &s.g;
+            if let Err(p) = guarded(|| (g.len(), g.is_empty())) {
+                return Some(format!("len()/is_empty() after the in-limits call {} panicked: {p}", op.show()));
+            }
+            out.calls += 2;
+        }
         if s.g.keys() != s.m.keys() {
             // exactness is C02's business; from here the history is no longer in sync
             out.counters.inc("c07.left-sync-before-overrun");
@@ -327,6 +336,10 @@ fn hostile_history(
         l
     };
     for _ in 0..len_b {
+        {
+            let g = &s.g;
+            let _ = guarded(|| (g.len(), g.is_empty()));
+        }
         let v1 = wild_id(&mut rng, s.g.as_ref(), cap);
         let v2 = wild_id(&mut rng, s.g.as_ref(), cap);
         let l = *rng.pick(&labels);
